@@ -126,7 +126,7 @@ theorem enqueue_ok (m : MDP) (θ d : Rat) (ss a : Nat) (queue : List QE)
   · exact h
 
 /-- a predicate preserved by every step of a fold on list elements is preserved by the fold -/
-theorem foldl_inv {α β : Type} (P : β → Prop) (f : β → α → β) (l : List α) (b : β)
+theorem ps_foldl_inv {α β : Type} (P : β → Prop) (f : β → α → β) (l : List α) (b : β)
     (hstep : ∀ b a, a ∈ l → P b → P (f b a)) (hb : P b) : P (l.foldl f b) := by
   induction l generalizing b with
   | nil => exact hb
@@ -146,15 +146,15 @@ theorem foldl_hit {α β : Type} (P : β → Prop) (f : β → α → β) (l : L
     simp only [List.foldl_cons]
     rcases List.mem_cons.mp hmem with h | h
     · subst h
-      exact foldl_inv P f l _ (fun b a _ hp => hstep b a hp) (hhit b)
+      exact ps_foldl_inv P f l _ (fun b a _ hp => hstep b a hp) (hhit b)
     · exact ih _ h
 
 theorem parentLoop_mono (m : MDP) (θ p : Rat) (s : Nat) (queue : List QE) (x y : Nat)
     (h : inQueue queue x y = true) : inQueue (parentLoop m θ p s queue) x y = true := by
   unfold parentLoop
-  apply foldl_inv (fun qu => inQueue qu x y = true)
+  apply ps_foldl_inv (fun qu => inQueue qu x y = true)
   · intro qu ss _ hq
-    apply foldl_inv (fun qu => inQueue qu x y = true)
+    apply ps_foldl_inv (fun qu => inQueue qu x y = true)
     · intro qu a _ hq
       exact enqueue_mono _ _ _ _ _ _ _ hq
     · exact hq
@@ -172,7 +172,7 @@ theorem parentLoop_adds (m : MDP) (θ p : Rat) (s : Nat) (queue : List QE) (ss a
     · intro qu a' hq
       exact enqueue_mono _ _ _ _ _ _ _ hq
   · intro qu ss' hq
-    apply foldl_inv (fun qu => inQueue qu ss a = true)
+    apply ps_foldl_inv (fun qu => inQueue qu ss a = true)
     · intro qu a' _ hq
       exact enqueue_mono _ _ _ _ _ _ _ hq
     · exact hq
@@ -180,9 +180,9 @@ theorem parentLoop_adds (m : MDP) (θ p : Rat) (s : Nat) (queue : List QE) (ss a
 theorem parentLoop_ok (m : MDP) (θ p : Rat) (s : Nat) (queue : List QE) (h : QOk m queue) :
     QOk m (parentLoop m θ p s queue) := by
   unfold parentLoop
-  apply foldl_inv (QOk m)
+  apply ps_foldl_inv (QOk m)
   · intro qu ss hss hq
-    apply foldl_inv (QOk m)
+    apply ps_foldl_inv (QOk m)
     · intro qu a ha hq
       exact enqueue_ok m _ _ _ _ _ (List.mem_range.mp hss) (List.mem_range.mp ha) hq
     · exact hq
@@ -351,17 +351,18 @@ theorem psApply_inv (m : MDP) (hT : ∀ s a s1, 0 ≤ m.T s a s1) (st : PS) (op 
 theorem psRun_inv (m : MDP) (hT : ∀ s a s1, 0 ≤ m.T s a s1) (ops : List PSOp)
     (hv : ∀ op ∈ ops, op.valid m) : Inv m (psRun m 0 ops) := by
   unfold psRun
-  exact foldl_inv (Inv m) (psApply m 0) ops PS.init
+  exact ps_foldl_inv (Inv m) (psApply m 0) ops PS.init
     (fun st op hop hst => psApply_inv m hT st op (hv op hop) hst) (inv_init m)
 
 /-! ## main theorem -/
 
+set_option linter.unusedVariables false in
 /-- C11 (PrioritizedSweeping).  Threshold `θ = 0`, arbitrary interleaving of explicit `stepUpdateQ`
     calls and `batchUpdateQ` calls, arbitrary pop order (`sel`), no stochasticity assumption on `T`
     beyond non-negativity: if the queue has drained and every pair has been updated at least once,
     then the Q-table satisfies the Bellman optimality equation on all of `S × A`.
     (`hA` is implied by the quantified `a < m.A` and is not used; it is kept for interface stability.) -/
-theorem ps_fixed_point (m : MDP) (hT : ∀ s a s1, 0 ≤ m.T s a s1) (_hA : 0 < m.A)
+theorem ps_fixed_point (m : MDP) (hT : ∀ s a s1, 0 ≤ m.T s a s1) (hA : 0 < m.A)
     (ops : List PSOp) (hv : ∀ op ∈ ops, op.valid m)
     (hempty : (psRun m 0 ops).queue = [])
     (hall : ∀ s a, s < m.S → a < m.A → (s, a) ∈ (psRun m 0 ops).done) :
@@ -378,5 +379,233 @@ theorem ps_fixed_point (m : MDP) (hT : ∀ s a s1, 0 ≤ m.T s a s1) (_hA : 0 < 
     rw [hinv.vmax s1]
   · rw [hempty] at h
     simp [inQueue] at h
+
+/-! ## uniqueness of the Bellman optimality fixed point (γ < 1, sub-stochastic rows) -/
+
+theorem maxTo_le_add (n : Nat) (f g : Nat → Rat) (B : Rat) (h : ∀ i, i ≤ n → f i ≤ g i + B) :
+    maxTo n f ≤ maxTo n g + B := by
+  induction n with
+  | zero => exact h 0 (Nat.le_refl 0)
+  | succ n ih =>
+    have ih' := ih (fun i hi => h i (Nat.le_succ_of_le hi))
+    have hn := h (n + 1) (Nat.le_refl _)
+    simp only [maxTo]
+    split <;> split <;> linarith
+
+theorem sumTo_le_add (n : Nat) (T w1 w2 : Nat → Rat) (B : Rat) (hT : ∀ i, 0 ≤ T i)
+    (h : ∀ i, i < n → w1 i ≤ w2 i + B) :
+    sumTo n (fun i => T i * w1 i) ≤ sumTo n (fun i => T i * w2 i) + sumTo n T * B := by
+  induction n with
+  | zero => simp [sumTo]
+  | succ n ih =>
+    have ih' := ih (fun i hi => h i (Nat.lt_succ_of_lt hi))
+    have hn : T n * w1 n ≤ T n * (w2 n + B) :=
+      mul_le_mul_of_nonneg_left (h n (Nat.lt_succ_self n)) (hT n)
+    simp only [sumTo]
+    nlinarith [ih', hn]
+
+/-- one application of the optimality operator contracts a one-sided bound by `γ` -/
+theorem bellman_contract_side (m : MDP) (hT : ∀ s a s1, 0 ≤ m.T s a s1)
+    (hrow : ∀ s a, s < m.S → a < m.A → sumTo m.S (fun s1 => m.T s a s1) ≤ 1)
+    (hγ0 : 0 ≤ m.γ) (hA : 0 < m.A) (q1 q2 : QF)
+    (h1 : ∀ s a, s < m.S → a < m.A →
+      q1 s a = m.R s a + m.γ * sumTo m.S (fun s1 => m.T s a s1 * maxA m.A (q1 s1)))
+    (h2 : ∀ s a, s < m.S → a < m.A →
+      q2 s a = m.R s a + m.γ * sumTo m.S (fun s1 => m.T s a s1 * maxA m.A (q2 s1)))
+    (B : Rat) (hB : 0 ≤ B) (hb : ∀ s a, s < m.S → a < m.A → q1 s a ≤ q2 s a + B) :
+    ∀ s a, s < m.S → a < m.A → q1 s a ≤ q2 s a + m.γ * B := by
+  intro s a hs ha
+  have hmax : ∀ s1, s1 < m.S → maxA m.A (q1 s1) ≤ maxA m.A (q2 s1) + B := by
+    intro s1 hs1
+    unfold maxA
+    apply maxTo_le_add
+    intro i hi
+    exact hb s1 i hs1 (by omega)
+  have hsum := sumTo_le_add m.S (m.T s a) (fun s1 => maxA m.A (q1 s1)) (fun s1 => maxA m.A (q2 s1)) B
+    (hT s a) hmax
+  have hr := hrow s a hs ha
+  have hrB : sumTo m.S (fun s1 => m.T s a s1) * B ≤ B := by nlinarith
+  rw [h1 s a hs ha, h2 s a hs ha]
+  have : m.γ * sumTo m.S (fun s1 => m.T s a s1 * maxA m.A (q1 s1))
+      ≤ m.γ * (sumTo m.S (fun s1 => m.T s a s1 * maxA m.A (q2 s1)) + B) :=
+    mul_le_mul_of_nonneg_left (le_trans hsum (by linarith)) hγ0
+  linarith
+
+/-- finite supremum (with floor 0) over indices `0..n-1` -/
+def supTo : Nat → (Nat → Rat) → Rat
+  | 0, _ => 0
+  | n+1, f => max (supTo n f) (f n)
+
+theorem supTo_nonneg (n : Nat) (f : Nat → Rat) : 0 ≤ supTo n f := by
+  induction n with
+  | zero => exact le_refl _
+  | succ n ih => exact le_trans ih (le_max_left _ _)
+
+theorem le_supTo (n : Nat) (f : Nat → Rat) (i : Nat) (hi : i < n) : f i ≤ supTo n f := by
+  induction n with
+  | zero => omega
+  | succ n ih =>
+    simp only [supTo]
+    by_cases h : i = n
+    · subst h; exact le_max_right _ _
+    · exact le_trans (ih (by omega)) (le_max_left _ _)
+
+theorem supTo_le (n : Nat) (f : Nat → Rat) (C : Rat) (hC : 0 ≤ C) (h : ∀ i, i < n → f i ≤ C) :
+    supTo n f ≤ C := by
+  induction n with
+  | zero => exact hC
+  | succ n ih =>
+    simp only [supTo]
+    exact max_le (ih (fun i hi => h i (Nat.lt_succ_of_lt hi))) (h n (Nat.lt_succ_self n))
+
+/-- one-sided uniqueness: `q1 ≤ q2` on `S × A` -/
+theorem bellman_fixed_point_le (m : MDP) (hT : ∀ s a s1, 0 ≤ m.T s a s1)
+    (hrow : ∀ s a, s < m.S → a < m.A → sumTo m.S (fun s1 => m.T s a s1) ≤ 1)
+    (hγ0 : 0 ≤ m.γ) (hγ1 : m.γ < 1) (hA : 0 < m.A) (q1 q2 : QF)
+    (h1 : ∀ s a, s < m.S → a < m.A →
+      q1 s a = m.R s a + m.γ * sumTo m.S (fun s1 => m.T s a s1 * maxA m.A (q1 s1)))
+    (h2 : ∀ s a, s < m.S → a < m.A →
+      q2 s a = m.R s a + m.γ * sumTo m.S (fun s1 => m.T s a s1 * maxA m.A (q2 s1))) :
+    ∀ s a, s < m.S → a < m.A → q1 s a ≤ q2 s a := by
+  -- D = max(0, max over S×A of q1 - q2)
+  let D : Rat := supTo m.S (fun s => supTo m.A (fun a => q1 s a - q2 s a))
+  have hD0 : 0 ≤ D := supTo_nonneg _ _
+  have hD : ∀ s a, s < m.S → a < m.A → q1 s a ≤ q2 s a + D := by
+    intro s a hs ha
+    have e1 : q1 s a - q2 s a ≤ supTo m.A (fun a => q1 s a - q2 s a) :=
+      le_supTo m.A (fun a => q1 s a - q2 s a) a ha
+    have e2 : supTo m.A (fun a => q1 s a - q2 s a) ≤ D :=
+      le_supTo m.S (fun s => supTo m.A (fun a => q1 s a - q2 s a)) s hs
+    linarith
+  have hc := bellman_contract_side m hT hrow hγ0 hA q1 q2 h1 h2 D hD0 hD
+  have hγD : 0 ≤ m.γ * D := mul_nonneg hγ0 hD0
+  have hDle : D ≤ m.γ * D := by
+    apply supTo_le _ _ _ hγD
+    intro s hs
+    apply supTo_le _ _ _ hγD
+    intro a ha
+    have := hc s a hs ha
+    linarith
+  have hDz : D ≤ 0 := by nlinarith
+  intro s a hs ha
+  have := hD s a hs ha
+  linarith
+
+/-- The Bellman optimality equation has at most one solution on `S × A` (γ < 1, rows of `T`
+    non-negative with sum ≤ 1).  This is the fixed point value iteration converges to. -/
+theorem bellman_fixed_point_unique (m : MDP) (hT : ∀ s a s1, 0 ≤ m.T s a s1)
+    (hrow : ∀ s a, s < m.S → a < m.A → sumTo m.S (fun s1 => m.T s a s1) ≤ 1)
+    (hγ0 : 0 ≤ m.γ) (hγ1 : m.γ < 1) (hA : 0 < m.A) (q1 q2 : QF)
+    (h1 : ∀ s a, s < m.S → a < m.A →
+      q1 s a = m.R s a + m.γ * sumTo m.S (fun s1 => m.T s a s1 * maxA m.A (q1 s1)))
+    (h2 : ∀ s a, s < m.S → a < m.A →
+      q2 s a = m.R s a + m.γ * sumTo m.S (fun s1 => m.T s a s1 * maxA m.A (q2 s1))) :
+    ∀ s a, s < m.S → a < m.A → q1 s a = q2 s a := by
+  intro s a hs ha
+  exact le_antisymm
+    (bellman_fixed_point_le m hT hrow hγ0 hγ1 hA q1 q2 h1 h2 s a hs ha)
+    (bellman_fixed_point_le m hT hrow hγ0 hγ1 hA q2 q1 h2 h1 s a hs ha)
+
+/-- PrioritizedSweeping with a drained queue reproduces THE optimal Q-function: its table agrees
+    on `S × A` with any solution `qstar` of the Bellman optimality equation (e.g. the limit of
+    value iteration). -/
+theorem ps_reproduces_fixed_point (m : MDP) (hT : ∀ s a s1, 0 ≤ m.T s a s1)
+    (hrow : ∀ s a, s < m.S → a < m.A → sumTo m.S (fun s1 => m.T s a s1) ≤ 1)
+    (hγ0 : 0 ≤ m.γ) (hγ1 : m.γ < 1) (hA : 0 < m.A)
+    (ops : List PSOp) (hv : ∀ op ∈ ops, op.valid m)
+    (hempty : (psRun m 0 ops).queue = [])
+    (hall : ∀ s a, s < m.S → a < m.A → (s, a) ∈ (psRun m 0 ops).done)
+    (qstar : QF)
+    (hstar : ∀ s a, s < m.S → a < m.A →
+      qstar s a = m.R s a + m.γ * sumTo m.S (fun s1 => m.T s a s1 * maxA m.A (qstar s1))) :
+    ∀ s a, s < m.S → a < m.A → (psRun m 0 ops).q s a = qstar s a :=
+  bellman_fixed_point_unique m hT hrow hγ0 hγ1 hA _ qstar
+    (ps_fixed_point m hT hA ops hv hempty hall) hstar
+
+/-! ## TEST: the hypotheses of `ps_fixed_point` are satisfiable by a non-trivial instance
+
+  2 states × 2 actions, γ = 1/2, sub-stochastic rational `T` with cycles (0→0, 0→1, 1→0, 1→1).
+  Four explicit steps leave three stale pairs in the queue
+  (`[(4/3,0,1), (1,1,1), (2,0,0)]`); `batchUpdateQ(100)` with the executable selector `topIdx`
+  drains it after three pops.  With θ = 0 and exact arithmetic the queue drains only when the
+  propagation terminates exactly (here: the cycles run through non-maximising actions only);
+  in general it drains only in the limit, which is why `hempty` is a hypothesis.
+  All checks below are kernel evaluations (`decide +kernel`; no `native_decide`). -/
+namespace PSTest
+
+def exT : Nat → Nat → Nat → Rat
+  | 0, 0, 1 => 1
+  | 0, 1, 0 => 1/3
+  | 0, 1, 1 => 2/3
+  | 1, 1, 0 => 1/2
+  | 1, 1, 1 => 1/2
+  | _, _, _ => 0
+
+def exR : Nat → Nat → Rat
+  | 0, 0 => 1
+  | 1, 0 => 2
+  | _, _ => 0
+
+def exM : MDP := { S := 2, A := 2, T := exT, R := exR, γ := 1/2 }
+
+def exOps : List PSOp := [.step 0 0, .step 0 1, .step 1 0, .step 1 1, .batch 100 topIdx]
+
+theorem exT_nonneg : ∀ s a s1, 0 ≤ exM.T s a s1 := by
+  intro s a s1
+  show 0 ≤ exT s a s1
+  unfold exT
+  split <;> decide +kernel
+
+theorem ex_valid : ∀ op ∈ exOps, op.valid exM := by
+  intro op hop
+  simp only [exOps, List.mem_cons, List.not_mem_nil, or_false] at hop
+  rcases hop with rfl | rfl | rfl | rfl | rfl <;> simp [PSOp.valid, exM]
+
+/-- the queue is non-empty before the batch (so the batch really does work) … -/
+theorem ex_before : ((psRun exM 0 (exOps.take 4)).queue.map (fun e => (e.prio, e.s, e.a)))
+    = [(4/3, 0, 1), (1, 1, 1), (2, 0, 0)] := by decide +kernel
+
+/-- … and empty after it -/
+theorem ex_empty : (psRun exM 0 exOps).queue = [] :=
+  List.isEmpty_iff.mp (by decide +kernel)
+
+theorem ex_done : (psRun exM 0 exOps).done = [(1,1),(0,1),(0,0),(1,1),(1,0),(0,1),(0,0)] := by
+  decide +kernel
+
+theorem ex_all : ∀ s a, s < exM.S → a < exM.A → (s, a) ∈ (psRun exM 0 exOps).done := by
+  intro s a hs ha
+  rw [ex_done]
+  have hs' : s < 2 := hs
+  have ha' : a < 2 := ha
+  have : s = 0 ∨ s = 1 := by omega
+  have : a = 0 ∨ a = 1 := by omega
+  rcases ‹s = 0 ∨ s = 1› with rfl | rfl <;> rcases ‹a = 0 ∨ a = 1› with rfl | rfl <;> simp
+
+/-- the instance satisfies every hypothesis, hence the conclusion -/
+example : ∀ s a, s < exM.S → a < exM.A →
+    (psRun exM 0 exOps).q s a
+      = exM.R s a + exM.γ * sumTo exM.S (fun s1 => exM.T s a s1 * maxA exM.A ((psRun exM 0 exOps).q s1)) :=
+  ps_fixed_point exM exT_nonneg (by decide) exOps ex_valid ex_empty ex_all
+
+/-- and the table is the expected one: Q* = [[2,1],[2,1]] -/
+example : toRows 2 2 (psRun exM 0 exOps).q = [[2, 1], [2, 1]] := by decide +kernel
+
+theorem ex_row : ∀ s a, s < exM.S → a < exM.A → sumTo exM.S (fun s1 => exM.T s a s1) ≤ 1 := by
+  intro s a hs ha
+  have hs' : s < 2 := hs
+  have ha' : a < 2 := ha
+  have : s = 0 ∨ s = 1 := by omega
+  have : a = 0 ∨ a = 1 := by omega
+  rcases ‹s = 0 ∨ s = 1› with rfl | rfl <;> rcases ‹a = 0 ∨ a = 1› with rfl | rfl <;> decide +kernel
+
+/-- the instance also satisfies the extra hypotheses of `ps_reproduces_fixed_point` -/
+example (qstar : QF)
+    (hstar : ∀ s a, s < exM.S → a < exM.A →
+      qstar s a = exM.R s a + exM.γ * sumTo exM.S (fun s1 => exM.T s a s1 * maxA exM.A (qstar s1))) :
+    ∀ s a, s < exM.S → a < exM.A → (psRun exM 0 exOps).q s a = qstar s a :=
+  ps_reproduces_fixed_point exM exT_nonneg ex_row (by decide +kernel) (by decide +kernel) (by decide)
+    exOps ex_valid ex_empty ex_all qstar hstar
+
+end PSTest
 
 end AITB.Learn
